@@ -595,16 +595,21 @@ func (d *BalDriver) Step(x *Exec, n *Node, i int) StepResult {
 			balNotifs = append(balNotifs, nf)
 		}
 	}
-	for k := 0; k < len(balNotifs); k++ {
-		nf := balNotifs[k]
-		if nf.Name == "Lock" {
+	// the statement fixes no order between the two streams: compare them as multisets of (from, to, amount)
+	// and replay the Transfer stream
+	plain, ext := map[string]int{}, map[string]int{}
+	for _, nf := range balNotifs {
+		switch {
+		case nf.Name == "Lock":
 			continue
+		case nf.Name == "Transfer" && len(nf.Args) == 3:
+			plain[fmt.Sprint(nf.Args)]++
+		case nf.Name == "TransferX" && len(nf.Args) == 4:
+			ext[fmt.Sprint(nf.Args[:3])]++
+			continue
+		default:
+			return viol("notification-pairing", fmt.Sprintf("unexpected Balance notification %s%v among %v", nf.Name, nf.Args, balNotifs))
 		}
-		if nf.Name != "Transfer" || k+1 >= len(balNotifs) || balNotifs[k+1].Name != "TransferX" || len(nf.Args) != 3 || len(balNotifs[k+1].Args) != 4 ||
-			!Same(nf.Args, balNotifs[k+1].Args[:3]) {
-			return viol("notification-pairing", fmt.Sprintf("Transfer/TransferX do not come in equal pairs: %v", balNotifs))
-		}
-		k++
 		a, _ := AsInt(nf.Args[2])
 		if fb, ok := AsBytes(nf.Args[0]); ok && len(fb) == 20 {
 			if shadow[Hx(fb)] == nil {
@@ -618,6 +623,9 @@ func (d *BalDriver) Step(x *Exec, n *Node, i int) StepResult {
 			}
 			shadow[Hx(tb)].Add(shadow[Hx(tb)], a)
 		}
+	}
+	if fmt.Sprint(plain) != fmt.Sprint(ext) {
+		return viol("notification-pairing", fmt.Sprintf("Transfer/TransferX do not come in equal pairs: %v", balNotifs))
 	}
 	for a, b := range shadow {
 		ab := after[a]
@@ -708,7 +716,7 @@ func (d *BalDriver) Step(x *Exec, n *Node, i int) StepResult {
 	if expLock != nil {
 		want = append(want, Notif{"balance", "Lock", expLock})
 	}
-	if fmt.Sprint(balNotifs) != fmt.Sprint(want) {
+	if !SameNotifSet(balNotifs, want) {
 		return viol("notifications", fmt.Sprintf("got %v want %v", balNotifs, want))
 	}
 	nn.M = nm
